@@ -810,7 +810,7 @@ def run(run, rng, tier):
         elif c.get("kind") in ("stateseq", "expected", "big"):
             from . import c03_seq
             c03_seq.replay(run, c, Driver)
-        elif c.get("kind") in ("float", "wide"):
+        elif c.get("kind") in ("float", "wide", "size"):
             from . import c03_float
             c03_float.replay(run, c, Driver)
         elif c.get("kind") in hp.KINDS:
@@ -869,7 +869,7 @@ def replay(run, payload):
         from . import c03_seq
         c03_seq.replay(run, payload["case"], Driver)
         return
-    if payload["case"].get("kind") in ("float", "wide"):
+    if payload["case"].get("kind") in ("float", "wide", "size"):
         from . import c03_float
         c03_float.replay(run, payload["case"], Driver)
         return
